@@ -410,20 +410,21 @@ type explorer struct {
 }
 
 type pathResult struct {
-	Harness   string             `json:"harness"`
-	Outcome   string             `json:"outcome"`
-	Msg       string             `json:"msg,omitempty"`
-	Viol      *violation         `json:"violation,omitempty"`
-	Decisions []int64            `json:"decisions"`
-	Kinds     []string           `json:"decision_kinds,omitempty"`
-	Inputs    map[string]int64   `json:"inputs,omitempty"`
-	UF        map[string][]ufRow `json:"uf,omitempty"`
-	Trace     []traceEvent       `json:"trace,omitempty"`
-	Sched     []int              `json:"sched,omitempty"`
-	Switches  []switchEv         `json:"switches,omitempty"`
-	Threads   []string           `json:"threads,omitempty"`
-	Reached   []string           `json:"reached,omitempty"`
-	Steps     int64              `json:"steps"`
+	Harness   string              `json:"harness"`
+	Outcome   string              `json:"outcome"`
+	Msg       string              `json:"msg,omitempty"`
+	Viol      *violation          `json:"violation,omitempty"`
+	Decisions []int64             `json:"decisions"`
+	Kinds     []string            `json:"decision_kinds,omitempty"`
+	Inputs    map[string]int64    `json:"inputs,omitempty"`
+	UF        map[string][]ufRow  `json:"uf,omitempty"`
+	Trace     []traceEvent        `json:"trace,omitempty"`
+	Sched     []int               `json:"sched,omitempty"`
+	Switches  []switchEv          `json:"switches,omitempty"`
+	Threads   []string            `json:"threads,omitempty"`
+	Reached   []string            `json:"reached,omitempty"`
+	Steps     int64               `json:"steps"`
+	LSites    map[string][]string `json:"lsites,omitempty"`
 	key       string
 	score     int
 }
@@ -649,6 +650,12 @@ func (r *run) result(withModel bool) *pathResult {
 			k = "lib:"
 		}
 		pr.Threads = append(pr.Threads, k+t.origin)
+		if r.outcome == outcomeViolation && len(t.lsites) > 0 {
+			if pr.LSites == nil {
+				pr.LSites = map[string][]string{}
+			}
+			pr.LSites[fmt.Sprint(t.id)] = t.lsites
+		}
 	}
 	for _, d := range r.decisions {
 		pr.Decisions = append(pr.Decisions, d.v)
